@@ -588,6 +588,14 @@ impl<'tcx> Cx<'tcx> {
                                                     } else {
                                                         self.pat(some.pat)
                                                     }
+                                                } else if let hir::PatKind::Struct(_, fs, _) =
+                                                    some.pat.kind
+                                                {
+                                                    if fs.len() == 1 {
+                                                        self.pat(fs[0].pat)
+                                                    } else {
+                                                        self.pat(some.pat)
+                                                    }
                                                 } else {
                                                     self.pat(some.pat)
                                                 };
